@@ -325,12 +325,18 @@ def run(case, ctx):
     want_keys = set(kept_in) | set(outs) | set(dn.values()) | set(qn.values())
     if set(io_map) != want_keys or any(len(v) != n for v in io_map.values()):
         ctx.violate("C09.io_map", f"io_map keys {sorted(io_map)} != expected {sorted(want_keys)} (or wrong lengths)", sig)
+    import re as _re
     for nm in us["nodes"]:
+        # the node of the stepped circuit this node is a copy of: io are called <io>_cg_unroll_<t>, the rest unrolled_<t>_<node>
+        m_ = _re.fullmatch(r"(.*)_cg_unroll_\d+", nm) or _re.fullmatch(r"unrolled_\d+_(.*)", nm)
+        base = m_.group(1) if m_ else nm
+        m_ = _re.fullmatch(r"(.*)_cg_unroll_\d+", base) or _re.fullmatch(r"unrolled_\d+_(.*)", base)
+        base = m_.group(1) if m_ else base
         for inst in insts:
             for p in pin_in + pin_out:
                 if p not in (d, q) and f"{inst}_{p}" in nodes:
                     continue     # an ordinary net of the circuit that happens to be called <flop>_<pin>
-                if p not in (d, q) and (f"{inst}_{p}_" in nm or nm.endswith(f"{inst}_{p}") or f"{inst}.{p}" in nm):
+                if p not in (d, q) and base in (f"{inst}_{p}", f"{inst}.{p}"):
                     ctx.violate("C09.pins_left", f"a non-data pin survived: node {nm}", sig)
     free_names = [io_map[qn[inst]][0] for inst in free_state] + [io_map[i][t] for t in range(n) for i in kept_in]
     if sorted(ref.inputs(us)) != sorted(free_names):
